@@ -996,10 +996,37 @@ func explore(p *program, strategy int, schedSeed uint64, budget int, keepTrace b
 			continue
 		}
 		var r string
-		if tg.isCache() {
-			r, _, _, _ = tg.cacheOp(f)
-		} else {
-			r, _, _ = tg.mapOp(f)
+		// the prefill runs outside the scheduler: a call that blocks there (a lock taken twice by a re-entrant
+		// callback, say) would spin forever, so it runs under a watchdog
+		fin := make(chan bool, 1)
+		go func() {
+			defer func() {
+				if e := recover(); e != nil {
+					r = fmt.Sprint("PANIC ", e)
+				}
+				fin <- true
+			}()
+			if tg.isCache() {
+				r, _, _, _ = tg.cacheOp(f)
+			} else {
+				r, _, _ = tg.mapOp(f)
+			}
+		}()
+		select {
+		case <-fin:
+		case <-time.After(4 * time.Second):
+			out.problem = "HANG: the single-threaded call `" + l + "` of the prefill did not return (self-deadlock)"
+			for len(out.preRes) < len(p.prefill) {
+				out.preRes = append(out.preRes, "?")
+			}
+			return out
+		}
+		if strings.HasPrefix(r, "PANIC") {
+			out.problem = r + " in prefill call `" + l + "`"
+			for len(out.preRes) < len(p.prefill) {
+				out.preRes = append(out.preRes, "?")
+			}
+			return out
 		}
 		if tr != nil {
 			tr.evs = append(tr.evs, "ev 9 Ret "+r)
